@@ -64,6 +64,11 @@ func Mv(r *Root, src, dst string) error {
 	if err == nil {
 		switch n := fsn.(type) {
 		case *File:
+			// Store the node before unlinking the file it replaces, so that
+			// a failing store leaves the destination as it was.
+			if err := dstDir.dagService.Add(dstDir.ctx, nd); err != nil {
+				return err
+			}
 			_ = dstDir.Unlink(dstFname)
 		case *Directory:
 			if n == srcAsDir {
